@@ -1,6 +1,8 @@
 /-
-C17 helper lemmas, part 3: option check at open, column-file prefixes, and the
-administration calls on the directory model.  Core Lean only.
+C17 helper lemmas, part 3: option check at open, column-file prefixes (with the T0
+obligations on the generated `file_name` / `is_file_name` / `drop_files` / `log{id}` /
+`metadata` / `lock` constants), and the administration calls on the directory model.
+Core Lean only.
 -/
 import Pdb.Proofs.C17Meta
 
@@ -111,61 +113,179 @@ theorem sep_unique {s : Char} {a b x y : Text} (ha : s ∉ a) (hb : s ∉ b)
         (fun hm => hb (List.mem_cons_of_mem _ hm)) h.2
       exact ⟨by rw [h.1, this.1], this.2⟩
 
+/-! #### T0 obligations on the generated file-name formats -/
+
+/-- The text in front of the column number in the `is_file_name` prefix, without its last
+character: `index`, `table`, `refcount`. -/
+def FileKind.name (k : FileKind) : Text := (k.isFileNameFmt.1.headD []).dropLast
+
+/-- Zero-pad width of the column number in the `is_file_name` prefix. -/
+def FileKind.width (k : FileKind) : Nat := k.isFileNameFmt.2.headD 0
+
+/-- T0 obligation: every `is_file_name` prefix is `<name>_{col:0w}_`: the column number sits
+between two `_` (so that `index_10_` is not a prefix of `index_100_..`). -/
+theorem isFileName_shape (k : FileKind) :
+    k.isFileNameFmt = ([k.name ++ ['_'], ['_']], [k.width]) := by
+  cases k <;> decide
+
+/-- T0 obligation: `file_name` starts with the text `is_file_name` tests for (same literal, same
+zero padding of the same argument `self.col()`), followed by one more hole. -/
+theorem fileName_shape (k : FileKind) :
+    k.fileNameFmt = ([k.name ++ ['_'], ['_'], (k.fileNameFmt.1.drop 2).headD []],
+      [k.width, (k.fileNameFmt.2.drop 1).headD 0]) ∧
+    k.fileNameArgs = [t!"self.col()", (k.fileNameArgs.drop 1).headD []] := by
+  cases k <;> decide
+
+/-- T0 obligation: the kind names contain no `_` ... -/
 theorem underscore_not_mem_kind (k : FileKind) : '_' ∉ k.name := by
   cases k <;> decide
 
-theorem underscore_not_mem_pad2 (n : Nat) : '_' ∉ pad2 n := fun h =>
-  isDigit_ne_underscore (isDigit_of_mem_pad2 h) rfl
-
+/-- T0 obligation: ... and are pairwise different. -/
 theorem kind_name_injective {k k' : FileKind} (h : k.name = k'.name) : k = k' := by
   cases k <;> cases k' <;> first | rfl | (exact absurd h (by decide))
+
+/-- T0 obligation: no kind name starts like `metadata`, `lock` or `log<n>`. -/
+theorem kind_heads (k : FileKind) : k.name = k.name.headD ' ' :: k.name.tail ∧
+    k.name.headD ' ' ≠ metadataName.headD ' ' ∧ k.name.headD ' ' ≠ lockName.headD ' ' ∧
+    k.name.headD ' ' ≠ (Gen.Text.logNamePieces.headD []).headD ' ' := by
+  cases k <;> decide
+
+/-- T0 obligation: `metadata`, `lock` and the `log` prefix are not empty. -/
+theorem other_names_cons : metadataName = metadataName.headD ' ' :: metadataName.tail ∧
+    lockName = lockName.headD ' ' :: lockName.tail ∧
+    Gen.Text.logNamePieces = [(Gen.Text.logNamePieces.headD []).headD ' ' ::
+      (Gen.Text.logNamePieces.headD []).tail, []] := by decide
+
+/-- T0 obligation: the three sites that name the metadata file (`write_metadata_with_version`,
+`load_metadata`, the existence test in `DbInner::open`) use the same literal. -/
+theorem metadataName_sites : Gen.Text.metadataNameWrite = metadataName ∧
+    Gen.Text.metadataNameOpen = metadataName := by decide
+
+/-- T0 obligation: `Log::open` recognises what `Log::log_path` writes: same prefix, and the
+number starts right after it (`&name[3..]`). -/
+theorem logName_shape : Gen.Text.logNamePieces = [Gen.Text.logOpenPrefix, []] ∧
+    Gen.Text.logOpenPrefix.length = Gen.Text.logOpenSkip := by decide
+
+/-- T0 obligation: `Column::drop_files` tests the names of all three kinds of table files of the
+column (index, value tables, reference-count tables). -/
+theorem isColumnFile_eq (col : Nat) (name : FileName) : isColumnFile col name =
+    ((filePrefix .index col).isPrefixOf name || (filePrefix .table col).isPrefixOf name ||
+      (filePrefix .refcount col).isPrefixOf name) := by
+  have h : Gen.Text.dropFilesTests.map FileKind.ofModule =
+      [some .index, some .table, some .refcount] := by decide
+  simp only [isColumnFile, Gen.Text.dropFilesTests, List.any_cons, List.any_nil, Bool.or_false] at h ⊢
+  simp only [List.map_cons, List.map_nil, List.cons.injEq, and_true] at h
+  simp only [h.1, h.2.1, h.2.2, Bool.or_assoc]
+
+theorem filePrefix_eq (k : FileKind) (c : Nat) :
+    filePrefix k c = k.name ++ '_' :: (padTo k.width (dec c) ++ ['_']) := by
+  unfold filePrefix
+  rw [isFileName_shape k]
+  simp [fmtW, fmt]
+
+theorem fileName_eq (k : FileKind) (c x : Nat) : ∃ rest, fileName k c x = filePrefix k c ++ rest := by
+  obtain ⟨h1, h2⟩ := fileName_shape k
+  generalize (k.fileNameFmt.1.drop 2).headD [] = r at h1
+  generalize (k.fileNameFmt.2.drop 1).headD 0 = w at h1
+  generalize (k.fileNameArgs.drop 1).headD [] = e at h2
+  refine ⟨padTo w (nameArg c x e) ++ r, ?_⟩
+  have hcol : nameArg c x t!"self.col()" = dec c := rfl
+  rw [filePrefix_eq]
+  unfold fileName
+  rw [h1, h2]
+  simp [fmtW, fmt, hcol]
+
+theorem logName_eq (i : Nat) : logName i = Gen.Text.logOpenPrefix ++ dec i := by
+  unfold logName
+  rw [logName_shape.1]
+  simp [fmt]
+
+/-- `Log::open` reads back the id `log_path` printed. -/
+theorem logName_roundtrip {i : Nat} (h : i ≤ u32Max) :
+    Gen.Text.logOpenPrefix.isPrefixOf (logName i) = true ∧
+    parseUnsigned u32Max ((logName i).drop Gen.Text.logOpenSkip) = some i := by
+  rw [logName_eq]
+  refine ⟨List.isPrefixOf_iff_prefix.mpr (List.prefix_append _ _), ?_⟩
+  rw [← logName_shape.2, List.drop_left]
+  exact parseUnsigned_dec h
+
+theorem underscore_not_mem_padTo (w n : Nat) : '_' ∉ padTo w (dec n) := fun h =>
+  isDigit_ne_underscore (isDigit_of_mem_padTo (fun _ hx => isDigit_of_mem_dec hx) h) rfl
 
 /-- A name that starts with the prefix of `(k', c')` starts with the prefix of `(k, c)` only
 if the kind and the column are the same. -/
 theorem filePrefix_isPrefixOf {k k' : FileKind} {c c' : Nat} {rest : Text}
     (h : (filePrefix k c).isPrefixOf (filePrefix k' c' ++ rest) = true) : k = k' ∧ c = c' := by
   obtain ⟨t, ht⟩ := List.isPrefixOf_iff_prefix.mp h
-  unfold filePrefix at ht
-  have e1 : k.name ++ '_' :: (pad2 c ++ '_' :: t) = k'.name ++ '_' :: (pad2 c' ++ '_' :: rest) := by
+  rw [filePrefix_eq, filePrefix_eq] at ht
+  have e1 : k.name ++ '_' :: (padTo k.width (dec c) ++ '_' :: t) =
+      k'.name ++ '_' :: (padTo k'.width (dec c') ++ '_' :: rest) := by
     simpa [List.append_assoc] using ht
   obtain ⟨hk, e2⟩ := sep_unique (underscore_not_mem_kind k) (underscore_not_mem_kind k') e1
-  obtain ⟨hc, _⟩ := sep_unique (underscore_not_mem_pad2 c) (underscore_not_mem_pad2 c') e2
-  exact ⟨kind_name_injective hk, pad2_injective hc⟩
+  obtain ⟨hc, _⟩ := sep_unique (underscore_not_mem_padTo _ c) (underscore_not_mem_padTo _ c') e2
+  exact ⟨kind_name_injective hk, padTo_dec_injective hc⟩
 
 theorem isColumnFile_prefix_iff (c : Nat) (k' : FileKind) (c' : Nat) (rest : Text) :
     isColumnFile c (filePrefix k' c' ++ rest) = true ↔ c = c' := by
   constructor
   · intro h
-    unfold isColumnFile at h
+    rw [isColumnFile_eq] at h
     simp only [Bool.or_eq_true] at h
     rcases h with (h | h) | h <;> exact (filePrefix_isPrefixOf h).2
   · intro h
     subst h
     have hp : (filePrefix k' c).isPrefixOf (filePrefix k' c ++ rest) = true :=
       List.isPrefixOf_iff_prefix.mpr (List.prefix_append _ _)
-    unfold isColumnFile
+    rw [isColumnFile_eq]
     cases k' <;> simp [hp]
 
-theorem fileName_eq (k : FileKind) (c x : Nat) : ∃ rest, fileName k c x = filePrefix k c ++ rest :=
-  ⟨_, rfl⟩
-
-/-- Files that belong to no column: names starting with `m`, `l`, `s` (metadata, lock,
-log<n>, stats.txt). -/
+/-- Files that belong to no column: names whose first character differs from the first
+character of `index`, `table` and `refcount` (metadata, lock, log<n>). -/
 theorem isColumnFile_other (c : Nat) (a : Char) (r : Text)
-    (ha : a ≠ 'i' ∧ a ≠ 't' ∧ a ≠ 'r') : isColumnFile c (a :: r) = false := by
-  have h1 : ('i' == a) = false := by simpa using Ne.symm ha.1
-  have h2 : ('t' == a) = false := by simpa using Ne.symm ha.2.1
-  have h3 : ('r' == a) = false := by simpa using Ne.symm ha.2.2
-  simp [isColumnFile, filePrefix, FileKind.name, List.isPrefixOf, h1, h2, h3]
+    (ha : ∀ k : FileKind, ∃ b t, k.name = b :: t ∧ b ≠ a) : isColumnFile c (a :: r) = false := by
+  have hk : ∀ k : FileKind, (filePrefix k c).isPrefixOf (a :: r) = false := by
+    intro k
+    obtain ⟨b, t, hb, hne⟩ := ha k
+    rw [filePrefix_eq, hb]
+    have : (b == a) = false := by simpa using hne
+    simp [List.isPrefixOf, this]
+  simp [isColumnFile_eq, hk]
 
-theorem isColumnFile_metadata (c : Nat) : isColumnFile c metadataName = false :=
-  isColumnFile_other c 'm' _ (by decide)
+theorem isColumnFile_metadata (c : Nat) : isColumnFile c metadataName = false := by
+  rw [other_names_cons.1]
+  exact isColumnFile_other c _ _ fun k => by
+    obtain ⟨h, h1, _, _⟩ := kind_heads k; exact ⟨_, _, h, h1⟩
 
-theorem isColumnFile_lock (c : Nat) : isColumnFile c lockName = false :=
-  isColumnFile_other c 'l' _ (by decide)
+theorem isColumnFile_lock (c : Nat) : isColumnFile c lockName = false := by
+  rw [other_names_cons.2.1]
+  exact isColumnFile_other c _ _ fun k => by
+    obtain ⟨h, _, h2, _⟩ := kind_heads k; exact ⟨_, _, h, h2⟩
 
-theorem isColumnFile_log (c i : Nat) : isColumnFile c (logName i) = false :=
-  isColumnFile_other c 'l' _ (by decide)
+theorem logName_cons (i : Nat) : logName i = (Gen.Text.logNamePieces.headD []).headD ' ' ::
+    ((Gen.Text.logNamePieces.headD []).tail ++ dec i) := by
+  unfold logName
+  rw [other_names_cons.2.2]
+  simp [fmt]
+
+theorem isColumnFile_log (c i : Nat) : isColumnFile c (logName i) = false := by
+  rw [logName_cons]
+  exact isColumnFile_other c _ _ fun k => by
+    obtain ⟨h, _, _, h3⟩ := kind_heads k; exact ⟨_, _, h, h3⟩
+
+/-- A column file is never the metadata file. -/
+theorem filePrefix_ne_metadata (k : FileKind) (c : Nat) (rest : Text) :
+    filePrefix k c ++ rest ≠ metadataName := by
+  intro h
+  have h1 := (isColumnFile_prefix_iff c k c rest).mpr rfl
+  rw [h, isColumnFile_metadata] at h1
+  cases h1
+
+/-- T0 obligation: a log file is never the metadata file. -/
+theorem logName_ne_metadata (i : Nat) : logName i ≠ metadataName := by
+  intro h
+  have hne : (Gen.Text.logNamePieces.headD []).headD ' ' ≠ metadataName.headD ' ' := by decide
+  rw [logName_cons, other_names_cons.1] at h
+  exact hne (List.cons.inj h).1
 
 /-! ### open -/
 
